@@ -428,7 +428,158 @@ def check_from_conn(u):
     return obligations, failures, ["%s:%d bv.max = … < insert_partial < snapshot < snap.needed.insert < commit_snapshot" % (file, _line(src, o + maxs[0]))]
 
 
-CHECKS = {"from_conn": check_from_conn, "sql_actor_scoping": check_sql_actor_scoping, "local_write_sequence": check_local_write_sequence, "insert_local_changes": check_insert_local_changes, "authz_layer": check_authz_layer, "readonly_guard": check_readonly_guard, "read_pool": check_read_pool}
+_PRIM = {"u8": 1, "i8": 1, "bool": 1, "u16": 2, "i16": 2, "u32": 4, "i32": 4, "f32": 4, "char": 4, "u64": 8, "i64": 8, "f64": 8, "usize": 8, "isize": 8, "u128": 16, "i128": 16}
+
+
+def _split_top(s, sep=","):
+    out, depth, cur = [], 0, ""
+    for ch in s:
+        if ch in "<([":
+            depth += 1
+        elif ch in ">)]":
+            depth -= 1
+        if ch == sep and depth == 0:
+            out.append(cur)
+            cur = ""
+        else:
+            cur += ch
+    if cur.strip():
+        out.append(cur)
+    return [x.strip() for x in out]
+
+
+def _vec_elems(ty):
+    """element types of every `Vec<…>` / `VecDeque<…>` occurring in the type text (outermost and nested)"""
+    out = []
+    for m in re.finditer(r"\bVec(?:Deque)?\s*(?:::)?\s*<", ty):
+        i = m.end()
+        depth = 1
+        j = i
+        while j < len(ty) and depth:
+            if ty[j] == "<":
+                depth += 1
+            elif ty[j] == ">" and ty[j - 1] != "-":
+                depth -= 1
+            j += 1
+        out.append(ty[i:j - 1].strip())
+    return out
+
+
+def check_speedy_prealloc(u):
+    """C09: speedy's `Reader::read_vec` (what `Vec<T>::read_from` and every derived `Vec<T>` field call) reserves `Vec::with_capacity(len)`
+    for the wire length `len` after checking only `T::minimum_bytes_needed() * len <= bytes remaining`.  The trait default is 0, so for a
+    hand-written `Readable` without an override the reservation is driven by the peer alone (a 32-byte frame reserves 137 GB and aborts).
+    Obligation, per `Vec<E>` that speedy itself decodes in the wire types: the minimum encoded size of E is positive."""
+    import glob
+    files = sorted(glob.glob(os.path.join(REPO, u["dir"], "*.rs")))
+    hand = {}       # type -> (file, line, has non-zero override)
+    derived = {}    # type -> (file, line, body text)
+    aliases = {}    # name -> type text
+    vec_sites = []  # (file, line, where, type text)
+    for f in files:
+        src = open(f).read()
+        msk = mask(src)
+        rel = os.path.relpath(f, REPO)
+        for m in re.finditer(r"\bimpl\s*<[^{;]*?>\s*Readable\s*<[^{;]*?>\s*for\s+(\w+)", msk):
+            ob = msk.index("{", m.end())
+            cb = match_delim(msk, ob)
+            body = msk[ob:cb]
+            mm = re.search(r"fn\s+minimum_bytes_needed\s*\(\s*\)\s*->\s*usize\s*\{", body)
+            ok = False
+            if mm:
+                bo = ob + mm.end() - 1
+                bc = match_delim(msk, bo)
+                val = src[bo + 1:bc].strip()
+                ok = not re.fullmatch(r"0(?:usize)?", val) and val != ""
+            hand[m.group(1)] = (rel, _line(src, m.start()), ok)
+            for vm in re.finditer(r"\bVec\s*::\s*<", body):
+                # explicit `Vec::<T>::read_from(reader)` inside a hand-written reader
+                seg = body[vm.start():vm.start() + 200]
+                if re.match(r"Vec\s*::\s*<[^;]*?>\s*::\s*read_from", seg):
+                    vec_sites.append((rel, _line(src, ob + vm.start()), "%s::read_from" % m.group(1), seg[:seg.index("::read_from")] if "::read_from" in seg else seg))
+        for m in re.finditer(r"#\[derive\(([^\]]*)\)\]", msk):
+            if not re.search(r"\bReadable\b", m.group(1)):
+                continue
+            im = re.compile(r"\b(struct|enum)\s+(\w+)").search(msk, m.end())
+            if not im:
+                continue
+            k = im.end()
+            while msk[k] not in "{(;":
+                k += 1
+            if msk[k] == ";":
+                derived[im.group(2)] = (rel, _line(src, im.start()), "")
+                continue
+            e = match_delim(msk, k)
+            derived[im.group(2)] = (rel, _line(src, im.start()), msk[k + 1:e])
+            vec_sites.append((rel, _line(src, im.start()), "derived %s" % im.group(2), msk[k + 1:e]))
+        for m in re.finditer(r"\btype\s+(\w+)\s*=\s*([^;]+);", msk):
+            aliases[m.group(1)] = m.group(2).strip()
+    if not hand or not derived:
+        raise LostAnchor("no hand-written / derived speedy Readable found under %s" % u["dir"])
+    assumed = set()
+
+    def minb(ty, depth=0):
+        ty = ty.strip()
+        if depth > 8:
+            return 1
+        if ty.startswith("(") and ty.endswith(")"):
+            return sum(minb(x, depth + 1) for x in _split_top(ty[1:-1]))
+        if ty.startswith("["):
+            mm = re.match(r"\[\s*(\w+)\s*;\s*(\w+)\s*\]", ty)
+            if mm and mm.group(2).isdigit():
+                return minb(mm.group(1), depth + 1) * int(mm.group(2))
+            assumed.add(ty)
+            return 1
+        head = re.match(r"(?:\w+\s*::\s*)*(\w+)", ty)
+        if not head:
+            assumed.add(ty)
+            return 1
+        h = head.group(1)
+        if h in _PRIM:
+            return _PRIM[h]
+        if h in ("Vec", "VecDeque", "String", "HashMap", "HashSet", "BTreeMap", "BTreeSet", "Cow"):
+            return 4
+        if h == "Option":
+            return 1
+        if h == "Box":
+            return minb(ty[ty.index("<") + 1:ty.rindex(">")], depth + 1)
+        if h in aliases:
+            return minb(aliases[h], depth + 1)
+        if h in hand:
+            return 1 if hand[h][2] else 0
+        if h in derived:
+            body = derived[h][2]
+            return 1 if body.strip() else 0   # derive sums the fields / adds the variant tag: non-empty items are >= 1
+        assumed.add(h)
+        return 1
+
+    obligations, failures, samples = [], [], []
+    seen = set()
+    # alias expansion: an alias used as a field of a derived type is decoded by speedy too
+    sites = list(vec_sites)
+    for name, ty in aliases.items():
+        for (rel, ln, where, text) in vec_sites:
+            if re.search(r"\b%s\b" % name, text):
+                sites.append((rel, ln, "%s via type %s" % (where, name), ty))
+    for (rel, ln, where, text) in sites:
+        for e in _vec_elems(text):
+            key = (where, e)
+            if key in seen:
+                continue
+            seen.add(key)
+            name = "vec-element-has-positive-minimum-size:%s:Vec<%s>" % (where.replace(" ", "-"), re.sub(r"\s+", "", e))
+            obligations.append(name)
+            if minb(e) == 0:
+                failures.append((name, ln, "speedy reads Vec<%s> with Vec::with_capacity(wire length) unchecked: minimum_bytes_needed() of the element is 0 "
+                                           "(hand-written Readable without a non-zero override)" % e, rel))
+            samples.append("%s:%d %s: Vec<%s> minimum element size %s" % (rel, ln, where, e, "> 0" if minb(e) else "== 0"))
+    if not obligations:
+        raise LostAnchor("no speedy-decoded Vec<…> found")
+    u.setdefault("_assumed", sorted(assumed))
+    return obligations, failures, samples
+
+
+CHECKS = {"speedy_prealloc": check_speedy_prealloc, "from_conn": check_from_conn, "sql_actor_scoping": check_sql_actor_scoping, "local_write_sequence": check_local_write_sequence, "insert_local_changes": check_insert_local_changes, "authz_layer": check_authz_layer, "readonly_guard": check_readonly_guard, "read_pool": check_read_pool}
 
 
 def run_unit(prop, u, tier, ctx, here):
@@ -440,14 +591,15 @@ def run_unit(prop, u, tier, ctx, here):
         rec["reason"] = "%s: %s" % (type(e).__name__, e)
         return rec
     rec["obligations"] = len(obligations)
+    failures = [(f[0], f[1], f[2], f[3] if len(f) > 3 else u["file"]) for f in failures]
     failed_names = set(f[0] for f in failures)
     rec["discharged"] = len([x for x in obligations if x not in failed_names])
     rec["samples"] = ["%s: structural obligation `%s`" % (u["name"], x) for x in obligations[:8]] + samples[:4]
-    rec["cmd"] = "./check %s --only %s   (structural: vx/structural.py %s on %s::%s)" % (prop, u["name"], u["check"], u["file"], u.get("fn", "*"))
-    rec["trusted"] = list(u.get("trusted", []))
+    rec["cmd"] = "./check %s --only %s   (structural: vx/structural.py %s on %s::%s)" % (prop, u["name"], u["check"], u.get("file", u.get("dir")), u.get("fn", "*"))
+    rec["trusted"] = list(u.get("trusted", [])) + (["types assumed to have a positive minimum encoded size (foreign / not found): %s" % ", ".join(u["_assumed"])] if u.get("_assumed") else [])
     rec["failures"] = [{"obligation": "%s::structural:%s" % (u["name"], n), "kind": "structural", "tag": n,
-                        "repo_location": "%s:%d" % (u["file"], ln), "spec_location": None, "message": msg,
-                        "input": {"call_site": "%s:%d" % (u["file"], ln)}, "replay_result": msg,
-                        "rendered": "structural obligation `%s` does not hold at %s:%d: %s" % (n, u["file"], ln, msg)} for (n, ln, msg) in failures]
+                        "repo_location": "%s:%d" % (fl, ln), "spec_location": None, "message": msg,
+                        "input": {"call_site": "%s:%d" % (fl, ln)}, "replay_result": msg,
+                        "rendered": "structural obligation `%s` does not hold at %s:%d: %s" % (n, fl, ln, msg)} for (n, ln, msg, fl) in failures]
     rec["status"] = "failed" if failures else "verified"
     return rec
